@@ -14,7 +14,8 @@ from rv import realnet as rn
 PROPERTY = "C17"
 LEVEL = "exploration"
 RULE = ("seeded histories per server kind (threaded, threadpool, oneshot, forking) x transport (tcp, unix): phase 1 = "
-        "1-6 clients (rpyc clients and raw scripted peers) doing connect / call / graceful close (CLOSE message) / abrupt "
+        "1-6 clients (rpyc clients and raw scripted peers; every fifth history against a token authenticator, with clients "
+        "that fail it) doing connect / call / graceful close (CLOSE message) / abrupt "
         "close (socket closed without CLOSE) / RST (SO_LINGER 0) until all are gone, then the server state is compared with "
         "its baseline (descriptors after gc.collect(), clients, fd_to_conn, hook counters, child processes); phase 2 = 1-6 "
         "clients of which some leave and the others stay idle or inside exposed_sleep, then close, EOF observation on "
@@ -43,7 +44,8 @@ SYNC = 6              # request timeout of the rpyc clients (only bounds the wai
 
 
 class Client(object):
-    """one scripted client: an rpyc connection ('good') or a raw scripted peer ('raw')"""
+    """one scripted client: an rpyc connection ('good'), a raw scripted peer ('raw'), or - against an authenticating
+    server - an 'intruder' that presents a wrong or short token and is never let in"""
 
     def __init__(self, sp, mode, idx):
         self.sp, self.mode, self.idx = sp, mode, idx
@@ -58,8 +60,10 @@ class Client(object):
             self.conn = self.sp.good(sync_timeout=SYNC)
             self.sock = self.conn._channel.stream.sock
             self.root = self.conn.root
+        elif self.mode == "intruder":
+            self.sock = self.sp.raw(timeout=15, token=[b"wrongTOK", b"rvTOKEN?", b"rvT", b"\x00"][self.idx % 4])
         else:
-            self.sock = self.sp.raw(timeout=15)
+            self.sock = self.sp.raw(timeout=15, token=True if self.sp.auth else None)
             self.sess = rn.RawSession(self.sock)
         self.connected = True
         self.state = "idle"
@@ -67,6 +71,8 @@ class Client(object):
     def call(self, rng):
         from rpyc.core import consts
         x = "c%d-%d" % (self.idx, rng.randrange(10 ** 6))
+        if self.mode == "intruder":
+            return
         if self.mode == "good":
             got = self.conn.sync_request(consts.HANDLE_CALLATTR, self.root, "echo", (x,), ())
             if got != x:
@@ -114,7 +120,12 @@ class Client(object):
         if not self.connected:
             return
         try:
-            if how == "graceful":
+            if self.mode == "intruder":
+                if how == "rst":
+                    rn.rst_close(self.sock)
+                else:
+                    self.sock.close()
+            elif how == "graceful":
                 if self.mode == "good":
                     self.root = None
                     self.conn.close()
@@ -264,8 +275,9 @@ def gen_phase1(rng, nclients):
 def run_history(sc, kind, unix, rng, hidx):
     transport = "unix" if unix else "tcp"
     slow = kind == "threadpool"
+    auth = hidx % 5 == 4          # every fifth history: token authenticator, some phase-1 clients fail it and leave
     try:
-        sp = rn.ServerProc(kind, unix=unix)
+        sp = rn.ServerProc(kind, unix=unix, auth=auth)
     except rn.ChildError as e:
         sc.inconclusive("could not start %s/%s: %s" % (kind, transport, str(e)[:300]))
         return
@@ -275,6 +287,12 @@ def run_history(sc, kind, unix, rng, hidx):
         # ---------------------------------------------------------------- phase 1: come and go
         n1 = rng.randrange(1, 4 if slow else 7)
         modes1 = [rng.choice(["good", "good", "raw"]) for _ in range(n1)]
+        if auth:
+            n1 += 1
+            modes1.insert(rng.randrange(n1), "intruder")
+            for i in range(n1):
+                if modes1[i] != "intruder" and rng.random() < 0.3:
+                    modes1[i] = "intruder"
         ops = gen_phase1(rng, n1)
         c1 = [Client(sp, modes1[i], i) for i in range(n1)]
         clients += c1
@@ -287,7 +305,7 @@ def run_history(sc, kind, unix, rng, hidx):
                 c1[i].leave(op)
         sc.beat()
         desc1 = tuple((op, modes1[i]) for op, i in ops)
-        wit = dict(kind=kind, transport=transport, phase1=[(op, i, modes1[i]) for op, i in ops])
+        wit = dict(kind=kind, transport=transport, auth=auth, phase1=[(op, i, modes1[i]) for op, i in ops])
         held, st, n = settle(sp, base)
         sc.count("fd_samples", n)
         sc.count("departures_checked", n1)
@@ -352,7 +370,9 @@ def run_history(sc, kind, unix, rng, hidx):
         if rep2.get("exc"):
             sc.violation("C17/%s/second-close-raises" % kind, "the second close() raised %s" % rep2["exc"], wit)
         check_listener_closed(sc, sp, kind, wit)
-        sc.case((kind, transport, desc1, tuple(plan2)),
+        if auth:
+            sc.count("rejected_clients_accounted", sum(1 for m in modes1 if m == "intruder"))
+        sc.case((kind, transport, auth, desc1, tuple(plan2)),
                 nontrivial=bool(stayers) or any(op in ("abrupt", "rst") for op, _ in ops))
         if hidx == 0:
             sc.sample(dict(wit, stayers=len(stayers), survivors=len(survivors), close=rep, state_after=dict(
